@@ -8,6 +8,7 @@ stub.  After each interrupted call the directory listing is compared with the Le
 is absent or holds exactly the payload; a later completed call returns the complete file; a present
 final file is reused without any network read, write or rename.
 """
+import json
 import lzma as _lzma
 import os
 import shutil
@@ -15,12 +16,12 @@ import tempfile
 
 from vlib import core
 from vlib.core import Outcome, line
-from vlib.crash import Crash, InjectedIOError, Injector, WFile, hard_points, is_under, mkdtemp, prefixes, real_open
+from vlib.crash import Crash, FsTap, InjectedIOError, Injector, WFile, hard_points, in_tree, mkdtemp, prefixes
 
 DL_BLOCK = 1 << 18
 CP_BLOCK = getattr(shutil, 'COPY_BUFSIZE', 64 * 1024)
 CALLS = {0: 'download', 1: 'decompress'}
-FS_KINDS = ('open', 'write', 'rename')
+FS_KINDS = ('open', 'write', 'rename', 'remove', 'mkdir', 'rmdir', 'truncate')
 WRITE_BUFFER = 8192      # io.DEFAULT_BUFFER_SIZE: smaller writes only fail when the buffer is flushed
 
 
@@ -74,21 +75,12 @@ def describe_variant(v):
   return f', server answers HTTP {t[1]} with an error page' + ('' if t[2] >= 10 ** 9 else f' to the first {t[2]} request(s)')
 
 
-def same_listing(model, impl):
-  """Observation function of the cache directory: the two FINAL names are compared exactly (absent, or
-  (length, is-the-payload)); for the two TEMP names only presence and "is a prefix of the payload / stale
-  garbage" are compared — how many bytes of a temp file are on disk at a crash point is not part of the
-  property and legitimately depends on block size, buffering or sparse copying."""
-  if not (isinstance(model, list) and isinstance(impl, list) and len(model) == len(impl) == 4):
-    return model == impl
-  for i in (0, 2):
-    if model[i] != impl[i]:
-      return False
-  for i in (1, 3):
-    a, b = model[i], impl[i]
-    if (a is None) != (b is None) or (a is not None and bool(a[1]) != bool(b[1])):
-      return False
-  return True
+def finals_of(listing):
+  """Observation function of the cache directory: ONLY the two final names (each absent, or
+  (length, is-exactly-a-prefix-of-its-payload)).  Where unfinished data lives — a `.partial` file, a uniquely
+  named scratch file, a private staging directory —, whether it is cleaned up, and which system calls are
+  made in which order is the implementation's freedom and not compared."""
+  return [listing[0], listing[2]]
 
 
 class _Raw:
@@ -310,9 +302,16 @@ class C19(core.Property):
           'reads), HTTP error statuses with an error page for all / the first requests of a call; OSError out of every '
           'unbuffered-size write; decompressed payloads ending in zero blocks / all zero; a handful of cases per run go '
           'through the real requests/urllib3 over a real loopback socket and must agree with the stub), always '
-          'followed by completed calls and a '
+          'survivable OSError at a publication step (rename/replace/move) followed by a crash at any later event '
+          '(double fault), always followed by completed calls and a '
           'reuse call; non-trivial = at least one interruption happened after the first file-system effect; '
           'distinct by case digest')
+  OBSERVATION = ('only the two FINAL names of the cache are compared with the model (absent | complete; monotone; complete '
+                 'after a completed call; reused without network): at every crash point of the IMPLEMENTATION\'s own event '
+                 'sequence — whatever API it uses (open / os.open / pathlib, rename / replace / move, mkdir / mkdtemp / '
+                 'rmdir, remove, fsync, files in sub-directories) — the final-name state must be one the model allows '
+                 'at some crash point of its plan.  Temp-file names, their presence, length, clean-up and the order '
+                 'of system calls are implementation freedom (recorded as diagnostics only).')
   TRUSTED = ['POSIX rename atomicity; Python file objects / lzma / shutil.copyfileobj; network I/O of `requests` '
              'is replaced by a local stub (headers, status, raw.read with the short-read / IncompleteRead semantics '
              'of urllib3 2.x, iter_content); the stub is monitored on every run against the real requests/urllib3 '
@@ -441,6 +440,14 @@ class C19(core.Property):
       call = case['enumerate']
       hit = getattr(self, '_last_fail', {}).get(core.case_digest(case))
       extra = {k: case[k] for k in ('streams', 'empty_first', 'zeros') if k in case}
+      if hit and hit[0] == 'double':
+        _, c, pb, r_, n = hit
+        cf = -(-c * 1001 // (n + 1))
+        while (cf * (n + 1)) // 1001 < c:
+          cf += 1
+        yield {'kind': case['kind'], 'size': case['size'], 'init': case['init'], **extra,
+               'sched': [[call, cf, 500 if pb else 0, 0, None, {'oserror_at_events': [r_]}]]}
+        return
       if hit and hit[0] == 'werr':
         _, c, pb, n, m = hit
         cf = -(-c * 1001 // (n + 1))
@@ -534,26 +541,9 @@ class C19(core.Property):
     requests/urllib3 talk to a real socket instead of the stub."""
     import time as _time
     dl = self.dl
-    real_rename, real_replace = os.rename, os.replace
     missing = object()
-    saved = {k: dl.__dict__.get(k, missing) for k in ('open', 'requests', 'lzma', 'log', 'time')}
+    saved = {k: dl.__dict__.get(k, missing) for k in ('lzma', 'log', 'time')}
     nreq = [0]
-
-    def w_open(file, mode='r', *a, **k):
-      if is_under(file, d) and any(ch in mode for ch in 'wax+'):
-        inj.event('open', os.path.basename(os.fspath(file)))
-        return WFile(real_open(file, mode, *a, **k), inj, os.path.basename(os.fspath(file)))
-      return real_open(file, mode, *a, **k)
-
-    def w_rename(src, dst, *a, **k):
-      if is_under(src, d) or is_under(dst, d):
-        inj.event('rename', (os.path.basename(os.fspath(src)), os.path.basename(os.fspath(dst))))
-      return real_rename(src, dst, *a, **k)
-
-    def w_replace(src, dst, *a, **k):
-      if is_under(src, d) or is_under(dst, d):
-        inj.event('rename', (os.path.basename(os.fspath(src)), os.path.basename(os.fspath(dst))))
-      return real_replace(src, dst, *a, **k)
 
     def w_get(url, *a, **k):
       inj.event('net', 'get')
@@ -565,29 +555,37 @@ class C19(core.Property):
       f = _lzma.open(filename, mode, *a, **k)
       return _RFile(f, inj) if 'r' in mode else f
 
-    dl.open = w_open
+    import requests as _requests
+    real_request = _requests.sessions.Session.request
     if loopback is None:
-      dl.requests = _Proxy(saved['requests'], get=w_get)
+      # every high-level requests call (requests.get, Session.get, requests.request, …) ends in Session.request
+      def w_request(self_, method, url, *a, **k):
+        return w_get(url)
+      _requests.sessions.Session.request = w_request
     if saved['time'] is not missing:
       dl.time = _Proxy(saved['time'], sleep=lambda *_a: None)     # back-off sleeps are not part of the behaviour
     dl.lzma = _Proxy(saved['lzma'], open=w_lzma_open)
     dl.log = lambda *a, **k: None
-    os.rename, os.replace = w_rename, w_replace
     try:
-      if call == 0:
-        base = 'https://example.invalid' if loopback is None else f'http://127.0.0.1:{loopback.port}'
-        path = dl.maybe_download(base + '/some/dir/' + name + '?x=1', d)
-      else:
-        path = dl.maybe_lzma_decompress(os.path.join(d, name))
+      with FsTap(d, inj):
+        if call == 0:
+          base = 'https://example.invalid' if loopback is None else f'http://127.0.0.1:{loopback.port}'
+          path = dl.maybe_download(base + '/some/dir/' + name + '?x=1', d)
+        else:
+          path = dl.maybe_lzma_decompress(os.path.join(d, name))
       return ('ok', path)
     except Crash:
       return ('crash', None)
     except InjectedIOError:
       return ('crash', None)
     except Exception as e:   # pylint: disable=broad-except
+      if call == 0 and loopback is None and nreq[0] == 0 and type(e).__name__ in (
+          'ConnectionError', 'URLError', 'gaierror', 'MaxRetryError', 'NameResolutionError', 'NewConnectionError'):
+        raise core.InfraError(f'the download did not go through requests ({type(e).__name__}): the response stub of this '
+                              f'harness does not apply to the implementation')
       return ('raise', type(e).__name__)
     finally:
-      os.rename, os.replace = real_rename, real_replace
+      _requests.sessions.Session.request = real_request
       for k, v in saved.items():
         if v is missing:
           dl.__dict__.pop(k, None)
@@ -615,30 +613,21 @@ class C19(core.Property):
       put(decname + self.suffix[1], b'\xfe' * init['decPart'])
 
   def observe(self, d, kind, P, D):
-    """Directory -> canonical model FS [dl, dlPart, dec, decPart] (+ unexpected files)."""
+    """Cache directory -> ([dl_final, None, dec_final, None] in the model's listing format,
+    names of everything else that lies around (diagnostics only, never compared))."""
     dlname, decname = self.names(kind)
-    fs = {'dl': None, 'dlPart': None, 'dec': None, 'decPart': None}
-    other = []
-    for fn in sorted(os.listdir(d)):
-      with open(os.path.join(d, fn), 'rb') as f:
-        data = f.read()
-      if fn == dlname:
-        key = 'dl'
-      elif decname and fn == decname:
-        key = 'dec'
-      elif fn.startswith(dlname):
-        key = 'dlPart'
-      elif decname and fn.startswith(decname):
-        key = 'decPart'
-      else:
-        other.append(fn)
+    out = {}
+    for key, fn, pay in (('dl', dlname, P), ('dec', decname, D)):
+      out[key] = None
+      if fn is None:
         continue
-      if fs[key] is not None:
-        other.append(fn)
-        continue
-      pay = P if key in ('dl', 'dlPart') else D
-      fs[key] = [len(data), data == pay[:len(data)] and len(data) <= len(pay)]
-    return [fs['dl'], fs['dlPart'], fs['dec'], fs['decPart']], other
+      p = os.path.join(d, fn)
+      if os.path.isfile(p):
+        with open(p, 'rb') as f:
+          data = f.read()
+        out[key] = [len(data), data == pay[:len(data)] and len(data) <= len(pay)]
+    leftovers = sorted(fn for fn in os.listdir(d) if fn not in (dlname, decname))
+    return [out['dl'], None, out['dec'], None], leftovers
 
   def oracle_state(self, d, kind, P, D, before=None):
     """The property on the real directory: finals are absent or exactly the payload;
@@ -663,71 +652,41 @@ class C19(core.Property):
   def finals_present(self, d, kind):
     return {fn: os.path.exists(os.path.join(d, fn)) for fn in self.names(kind) if fn}
 
-  @staticmethod
-  def infer_block(events, default, total):
-    ws = [e[1][1] for e in events if e[0] == 'write']
-    if len(ws) >= 2:
-      return ws[0]
-    return max(default, total, 1)
+  def allowed_finals(self, ctx, zs, call, start):
+    """What the model allows for the final names at ANY crash point of one call from `start` (finals only):
+    asked from the model (every crash point of the model's own plan), cached per start state."""
+    key = json.dumps([zs, call, start])
+    cache = self.__dict__.setdefault('_allowed', {})
+    if key not in cache:
+      if len(cache) > 500:
+        cache.clear()
+      plan = ctx.drv.ask([line('c19.plan', *zs, call, start)])[0]
+      if plan == 'raises':
+        cache[key] = ('raises', [finals_of(start)], finals_of(start))
+      else:
+        lines = [line('c19.run', *zs, start, [[call, c, 0]]) for c in range(len(plan) + 1)]
+        lines.append(line('c19.run', *zs, start, [[call, -1, 0]]))
+        ans = ctx.drv.ask(lines)
+        allowed = []
+        for a_ in ans[:-1]:
+          f_ = finals_of(a_[0])
+          if f_ not in allowed:
+            allowed.append(f_)
+        cache[key] = ('ok', allowed, finals_of(ans[-1][0]))
+    return cache[key]
 
-  @staticmethod
-  def map_crash(events, c, p, model_effs):
-    """real crash point (c, p) -> model crash point (c', p').  Aligned on the publication structure
-    (open-for-write / rename events); inside a write phase on the number of completed writes."""
-    done = events[:c]
-    j = sum(1 for e in done if e[0] in ('open', 'rename'))
-    w = 0
-    for e in done:
-      if e[0] in ('open', 'rename'):
-        w = 0
-      elif e[0] == 'write':
-        w += 1
-    shape = [i for i, e in enumerate(model_effs) if e[0] in ('truncate', 'rename')]
-    if j >= len(shape):
-      return len(model_effs), 0
-    i = shape[j - 1] + 1 if j > 0 else 0
-    seen = 0
-    while i < shape[j] and seen < w:
-      if model_effs[i][0] == 'append':
-        seen += 1
-      i += 1
-    is_write = c < len(events) and events[c][0] == 'write'
-    if is_write:
-      while i < shape[j] and model_effs[i][0] != 'append':
-        i += 1
-      return i, (p if i < shape[j] else 0)
-    return i, 0
+  def completed_finals(self, ctx, zs, kind, start):
+    """model: final names after download (and decompress) ran to completion from `start`"""
+    key = json.dumps([zs, kind, start])
+    cache = self.__dict__.setdefault('_completed', {})
+    if key not in cache:
+      if len(cache) > 500:
+        cache.clear()
+      sched = [[0, -1, 0]] + ([[1, -1, 0]] if kind == 'lzma' else [])
+      ans = ctx.drv.ask([line('c19.run', *zs, start, sched)])[0]
+      cache[key] = None if ans[-1] == 'raises' else finals_of(ans[-1])
+    return cache[key]
 
-  @staticmethod
-  def publication_shape(kinds):
-    """truncate-the-temp … rename: the writes in between are not compared one by one"""
-    return [k for k in kinds if not k.startswith('append')]
-
-  @staticmethod
-  def fs_kinds_real(events):
-    out = []
-    for e in events:
-      if e[0] == 'open':
-        out.append('truncate')
-      elif e[0] == 'write':
-        out.append(f'append:{e[1][1]}')
-      elif e[0] == 'rename':
-        out.append('rename')
-    return out
-
-  @staticmethod
-  def fs_kinds_model(effs):
-    out = []
-    for e in effs:
-      if e[0] == 'truncate':
-        out.append('truncate')
-      elif e[0] == 'append':
-        out.append(f'append:{e[2]}')
-      elif e[0] == 'rename':
-        out.append('rename')
-    return out
-
-  # ------------------------------------------------------------------------------------------
   def evaluate(self, case, ctx):
     kind, size, init = case['kind'], case['size'], case['init']
     if 'loopback' in case:
@@ -794,13 +753,13 @@ class C19(core.Property):
     self.populate(d, kind, init, P, D)
     return d
 
-  def _clean_events(self, root, src_dir, kind, call, P, hard=False, hdr='ok'):
+  def _clean_events(self, root, src_dir, kind, call, P, hard=False, hdr='ok', oserror_at=()):
     """Events of an uninterrupted run of `call` from the state of `src_dir` (on a copy)."""
     d = os.path.join(root, 'probe')
     if os.path.exists(d):
       shutil.rmtree(d)
     shutil.copytree(src_dir, d)
-    inj = Injector(hard=hard)
+    inj = Injector(hard=hard, oserror_at=oserror_at)
     self._probe_pending = inj.pending_at
     sizes = []
     res = self.run_call(d, self.names(kind)[0], call, inj, P, sizes, hdr)
@@ -837,10 +796,13 @@ class C19(core.Property):
       inj = Injector()
       res = self.run_call(d, dlname, call, inj, P, [])
       st2 = os.stat(os.path.join(d, fn)) if os.path.exists(os.path.join(d, fn)) else None
-      touched = [e[0] for e in inj.events if e[0] in ('net', 'open', 'write', 'rename')]
+      touched = [e[0] for e in inj.events if e[0] == 'net']
       if res[0] != 'ok' or touched or st2 is None or st2.st_mtime_ns != st.st_mtime_ns or st2.st_size != st.st_size \
           or st2.st_ino != st.st_ino:
-        probs.append((f'C19/{what}/not-reused', f'{what} of a complete cached file: result {res}, effects {touched}'))
+        probs.append((f'C19/{what}/not-reused',
+                      f'{what} of a complete cached file: result {res}, network accesses {len(touched)}, the cached file '
+                      f'was {"left alone" if st2 is not None and st2.st_ino == st.st_ino and st2.st_mtime_ns == st.st_mtime_ns else "replaced or rewritten"} '
+                      f'(effects {[e[0] for e in inj.events][:8]})'))
       ctx.count('reuse_calls')
     for p_ in self.oracle_state(d, kind, P, D):
       probs.append(p_)
@@ -852,29 +814,20 @@ class C19(core.Property):
     kind, size, init, call = case['kind'], case['size'], case['init'], case['enumerate']
     dlname, decname = self.names(kind)
     base = self._fresh(root, 'base', kind, init, P, D)
-    fs0, other0 = self.observe(base, kind, P, D)
+    fs0, _ = self.observe(base, kind, P, D)
     events, res, rsizes = self._clean_events(root, base, kind, call, P)
     probs, corr = [], []
-    dl_block = DL_BLOCK
-    if call == 0:
-      dl_block = rsizes[0] if rsizes and isinstance(rsizes[0], int) and rsizes[0] > 0 else DL_BLOCK
-      dec_block = CP_BLOCK
-    else:
-      dec_block = self.infer_block(events, CP_BLOCK, len(D))
-    zs = self._sizes_args(P, D, dl_block, dec_block)
-    plan = ctx.drv.ask([line('c19.plan', *zs, call, fs0)])[0]
-    if plan == 'raises':
-      # the model says the call raises before any effect
+    zs = self._sizes_args(P, D, DL_BLOCK, CP_BLOCK)
+    status, allowed, completed = self.allowed_finals(ctx, zs, call, fs0)
+    if status == 'raises':
+      # the model says the call raises and leaves the final names alone (compressed file missing)
       after, _ = self.observe(base, kind, P, D)
-      if res[0] != 'raise' or [e for e in events if e[0] in FS_KINDS]:
-        corr.append(f'model: call raises without effects; impl: {res}, events {events[:6]}')
+      if res[0] != 'raise':
+        corr.append(f'model: call raises; impl: {res}')
       return Outcome(corr_fail='; '.join(corr) or None, nontrivial=False, tags=('enumerate', 'raises'),
-                     detail={'impl': res, 'model': plan})
+                     detail={'impl': res, 'model': 'raises'})
     if res[0] != 'ok':
       probs.append((f'C19/{CALLS[call]}/clean-run-fails', f'uninterrupted {CALLS[call]} call: {res}'))
-    if self.publication_shape(self.fs_kinds_real(events)) != self.publication_shape(self.fs_kinds_model(plan)):
-      corr.append(f'file-system effects of an uninterrupted call: impl {self.fs_kinds_real(events)[:12]} '
-                  f'vs model {self.fs_kinds_model(plan)[:12]}')
     fine = case.get('fine')
     points = []
     for c in range(len(events) + 1):
@@ -887,37 +840,55 @@ class C19(core.Property):
         ps = [0]
       for p in ps:
         points.append((c, p))
-    lines, impl_listings = [], []
+    # a survivable OSError at a publication step (rename / replace / move), then a crash at any later event of
+    # the path the implementation takes from there (error handling, fall-backs, clean-up)
+    double = []
+    for r_, e in enumerate(events):
+      if e[0] != 'rename':
+        continue
+      d = self._fresh(root, 'run', kind, init, P, D)
+      pin = Injector(oserror_at=[r_])
+      self.run_call(d, dlname, call, pin, P, [])
+      for c in range(r_ + 1, len(pin.events) + 1):
+        ps = [0]
+        if c < len(pin.events) and pin.events[c][0] == 'write':
+          ps = sorted({0, pin.events[c][1][1] // 2})
+        double += [(c, p, r_) for p in ps]
+    if len(double) > (30 if ctx.tier == 'quick' else 300):
+      stepf = len(double) / float(30 if ctx.tier == 'quick' else 300)
+      double = [double[int(i * stepf)] for i in range(30 if ctx.tier == 'quick' else 300)]
     first_bad = None
-    for (c, p) in points:
+    want_completed = self.completed_finals(ctx, zs, kind, fs0)
+    for (c, p, r_) in [(c, p, None) for (c, p) in points] + double:
       d = self._fresh(root, 'run', kind, init, P, D)
       before = self.finals_present(d, kind)
-      inj = Injector(crash_at=c, prefix=p)
+      inj = Injector(crash_at=c, prefix=p, oserror_at=[] if r_ is None else [r_])
       r = self.run_call(d, dlname, call, inj, P, [])
-      listing, other = self.observe(d, kind, P, D)
-      impl_listings.append(listing)
-      if other:
-        corr.append(f'unexpected files {other} after crash {(c, p)}')
+      listing, leftovers = self.observe(d, kind, P, D)
       st_probs = self.oracle_state(d, kind, P, D, before)
+      if not st_probs and finals_of(listing) not in allowed:
+        corr.append(f'after crash {(c, p)}: final names {finals_of(listing)} are not among the states the model '
+                    f'allows {allowed}')
       cp = []
       self._complete_and_check(d, kind, P, D, cp, ctx)
       final_listing, _ = self.observe(d, kind, P, D)
+      where = (f'crash at event {c} (+{p} bytes) of {CALLS[call]}' if r_ is None else
+               f'{CALLS[call]}: event {r_} {events[r_]} raised OSError, then crash at event {c} (+{p} bytes)')
       if (st_probs or cp) and first_bad is None:
-        first_bad = {'crash_point': [c, p], 'events_before': [list(map(str, e)) for e in events[:c + 1]][-4:],
-                     'listing_after_crash': listing, 'listing_after_completed_calls': final_listing}
+        evs = inj.events
+        first_bad = {'crash_point': [c, p], 'oserror_at_event': r_, 'events_before': [list(map(str, e)) for e in evs[:c + 1]][-5:],
+                     'finals_after_crash': finals_of(listing), 'other_files_after_crash': leftovers[:6],
+                     'finals_after_completed_calls': finals_of(final_listing)}
+        if r_ is not None:
+          self._last_fail = {core.case_digest(case): ('double', c, p, r_, len(evs))}
       for key, txt in st_probs + cp:
-        probs.append((key, f'crash at event {c} (+{p} bytes) of {CALLS[call]}: {txt}'))
-      c2, p2 = self.map_crash(events, c, p, plan)
-      sched = [[call, c2, p2], [0, -1, 0]] + ([[1, -1, 0]] if kind == 'lzma' else [])
-      lines.append(line('c19.run', *zs, fs0, sched))
-      impl_listings[-1] = (listing, final_listing)
-      ctx.count('crash_points')
-    answers = ctx.drv.ask(lines) if lines else []
-    for (c, p), (listing, final_listing), ans in zip(points, impl_listings, answers):
-      if not same_listing(ans[0], listing):
-        corr.append(f'after crash {(c, p)}: impl listing {listing} vs model {ans[0]}')
-      if ans[-1] != 'raises' and not same_listing(ans[-1], final_listing):
-        corr.append(f'after crash {(c, p)} + completed calls: impl {final_listing} vs model {ans[-1]}')
+        probs.append((key + ('-after-failed-publication' if r_ is not None else ''), f'{where}: {txt}'))
+      if not (st_probs or cp) and want_completed is not None and finals_of(final_listing) != want_completed:
+        corr.append(f'after crash {(c, p)} and the completed calls: final names {finals_of(final_listing)} vs model '
+                    f'{want_completed}')
+      ctx.count('crash_points' if r_ is None else 'double_fault_points')
+      if len(probs) > 6:
+        break
     if not probs:
       # hard-kill crash points: process death with unflushed data lost; close() is a crash point.
       # Judged by the independent oracle only (no model comparison).
@@ -977,8 +948,8 @@ class C19(core.Property):
     tags = ('enumerate', f'kind={kind}', f'call={CALLS[call]}', self._size_tag(kind, size))
     return Outcome(oracle_fail='; '.join(t for _, t in probs[:3]) or None, corr_fail='; '.join(corr[:3]) or None,
                    key=key, nontrivial=len(points) > 3, tags=tags,
-                   detail={'first_failing': first_bad, 'crash_points': len(points),
-                           'model_plan': self.fs_kinds_model(plan)[:10], 'impl_effects': self.fs_kinds_real(events)[:10]})
+                   detail={'first_failing': first_bad, 'crash_points': len(points), 'double_fault_points': len(double),
+                           'impl_events': [str(e) for e in events[:14]]})
 
   @staticmethod
   def _size_tag(kind, size):
@@ -995,21 +966,18 @@ class C19(core.Property):
     kind, size, init = case['kind'], case['size'], case['init']
     dlname, decname = self.names(kind)
     d = self._fresh(root, 'run', kind, init, P, D)
-    fs_model, other0 = self.observe(d, kind, P, D)
+    fs_model, _ = self.observe(d, kind, P, D)
     probs, corr, trace = [], [], []
     interrupted_late = False
-    dl_block, dec_block = DL_BLOCK, CP_BLOCK
+    zs = self._sizes_args(P, D, DL_BLOCK, CP_BLOCK)
     for step in case['sched']:
       call, cf, pf, mode = step[:4]
-      hdr = step[4] if len(step) > 4 and call == 0 else 'ok'    # response-header variant of this download
+      hdr = step[4] if len(step) > 4 and call == 0 and step[4] else 'ok'    # response variant of this download
+      extra = step[5] if len(step) > 5 and isinstance(step[5], dict) else {}
+      oserr = [int(x) for x in extra.get('oserror_at_events', [])]   # survivable OSErrors before the crash
       kill = mode in (2, 3)                # hard kill: unflushed data lost (fraction 0 / one half kept)
-      events, res, rsizes = self._clean_events(root, d, kind, call, P, hard=kill, hdr=hdr)
+      events, res, rsizes = self._clean_events(root, d, kind, call, P, hard=kill, hdr=hdr, oserror_at=oserr)
       pend = list(self._probe_pending)
-      if call == 0 and rsizes and isinstance(rsizes[0], int) and rsizes[0] > 0:
-        dl_block = rsizes[0]
-      if call == 1 and [e for e in events if e[0] == 'write']:
-        dec_block = self.infer_block(events, CP_BLOCK, len(D))
-      zs = self._sizes_args(P, D, dl_block, dec_block)
       c = (cf * (len(events) + 1)) // 1001
       if c < len(events) and events[c][0] == 'write' and not kill:
         p = (pf * events[c][1][1]) // 1000
@@ -1017,20 +985,21 @@ class C19(core.Property):
         p = 0
       before = self.finals_present(d, kind)
       if kill:
-        inj = Injector(crash_at=c, hard=True, keep_frac=0.0 if mode == 2 else 0.5)
+        inj = Injector(crash_at=c, hard=True, keep_frac=0.0 if mode == 2 else 0.5, oserror_at=oserr)
         ctx.count('hard_kill_points')
       else:
-        inj = Injector(crash_at=c, prefix=p, mode='ioerror' if mode == 1 else 'crash')
+        inj = Injector(crash_at=c, prefix=p, mode='ioerror' if mode == 1 else 'crash', oserror_at=oserr)
       r = self.run_call(d, dlname, call, inj, P, [], hdr)
-      listing, other = self.observe(d, kind, P, D)
-      if other:
-        corr.append(f'unexpected files {other}')
+      listing, leftovers = self.observe(d, kind, P, D)
       if any(e[0] in FS_KINDS for e in events[:c]) and inj.fired:
         interrupted_late = True
       vkind = parse_variant(hdr)[0]
       if hdr != 'ok':
         ctx.count({'none': 'headerless_responses', 'drop': 'dropped_connections', 'status': 'http_error_responses'}[vkind])
-      for key, txt in self.oracle_state(d, kind, P, D, before):
+      if oserr:
+        ctx.count('double_fault_points')
+      st_probs = self.oracle_state(d, kind, P, D, before)
+      for key, txt in st_probs:
         if (mode == 1 and inj.fired and c < len(events) and events[c][0] == 'write'
             and events[c][1][1] > WRITE_BUFFER):
           key += '-on-write-error'
@@ -1038,60 +1007,53 @@ class C19(core.Property):
           key += '-on-drop'
         elif vkind == 'status':
           key += '-on-http-error'
+        if oserr:
+          key += '-after-failed-publication'
         probs.append((key, (f'{CALLS[call]} killed before event {c} (unflushed data lost)' if kill else
                             f'{CALLS[call]} interrupted at event {c} (+{p} bytes)' if inj.fired else
                             f'{CALLS[call]} ran to its end (result {r[0]} {r[1] if r[0] == "raise" else ""})') +
+                      (f' after event(s) {oserr} raised OSError' if oserr else '') +
                       describe_variant(hdr) + f': {txt}'))
-      if hdr != 'ok' and not kill:
-        # oracle only: what a call does with a response that does not announce its size, whose connection
-        # is closed early or that carries an error status is not modelled (raising is fine, coping correctly
-        # is fine); the model continues from what is on disk
-        trace.append({'call': CALLS[call], 'response': describe_variant(hdr).lstrip(', '), 'crash_point': [c, p],
-                      'fired': inj.fired, 'result': list(r), 'impl_listing': listing})
-        fs_model = listing
-        continue
+      step_rec = {'call': CALLS[call], 'crash_point': [c, p], 'next_event': [str(x) for x in events[c]] if c < len(events) else None,
+                  'fired': inj.fired, 'result': list(r), 'finals_after': finals_of(listing), 'other_files': leftovers[:6]}
+      if hdr != 'ok':
+        step_rec['response'] = describe_variant(hdr).lstrip(', ')
       if kill:
-        # oracle only: the model is not consulted for hard-kill steps; it continues from what is on disk
-        trace.append({'call': CALLS[call], 'hard_kill_before_event': c, 'event': [str(x) for x in events[c]] if c < len(events) else None,
-                      'unflushed_bytes': pend[c] if c < len(pend) else 0, 'fraction_on_disk': 0.0 if mode == 2 else 0.5,
-                      'fired': inj.fired, 'result': list(r), 'impl_listing': listing})
-        fs_model = listing
-        continue
-      plan = ctx.drv.ask([line('c19.plan', *zs, call, fs_model)])[0]
-      if plan == 'raises':
-        if r[0] != 'raise' and not (r[0] == 'crash'):
-          corr.append(f'model: {CALLS[call]} raises; impl: {r}')
-        ans_fs = fs_model
-      else:
-        if not inj.fired:
-          sched = [[call, -1, 0]]
-        else:
-          c2, p2 = self.map_crash(events, c, p, plan)
-          sched = [[call, c2, p2]]
-        ans_fs = ctx.drv.ask([line('c19.run', *zs, fs_model, sched)])[0][0]
-      trace.append({'call': CALLS[call], 'crash_point': [c, p], 'fired': inj.fired, 'result': list(r),
-                    'impl_listing': listing, 'model_listing': ans_fs})
-      if not same_listing(ans_fs, listing):
-        corr.append(f'after {CALLS[call]} crash {(c, p)}: impl listing {listing} vs model {ans_fs}')
-        break
-      fs_model = ans_fs
+        step_rec['hard_kill'] = {'unflushed_bytes': pend[c] if c < len(pend) else 0, 'fraction_on_disk': 0.0 if mode == 2 else 0.5}
+      if oserr:
+        step_rec['oserror_at_events'] = oserr
+      trace.append(step_rec)
+      ordinary = hdr == 'ok' and not kill and not oserr
+      if ordinary and not st_probs:
+        # correspondence at the property's level: the final names are in a state the model allows at some
+        # crash point of this call (for responses the model does not know, hard kills and double faults the
+        # oracle above says the same thing directly)
+        status, allowed, completed = self.allowed_finals(ctx, zs, call, fs_model)
+        if status == 'raises':
+          if r[0] not in ('raise', 'crash'):
+            corr.append(f'model: {CALLS[call]} raises; impl: {r}')
+        elif finals_of(listing) not in allowed:
+          corr.append(f'after {CALLS[call]} crash {(c, p)}: final names {finals_of(listing)} are not among the states '
+                      f'the model allows {allowed}')
+          break
+        elif not inj.fired and r[0] == 'ok' and finals_of(listing) != completed:
+          corr.append(f'{CALLS[call]} ran to completion: final names {finals_of(listing)} vs model {completed}')
+          break
+      fs_model = listing
       ctx.count('crash_points')
     cp = []
     self._complete_and_check(d, kind, P, D, cp, ctx)
     probs += [(k, 'after the schedule: ' + t) for k, t in cp]
     final_listing, _ = self.observe(d, kind, P, D)
-    if not corr:
-      zs = self._sizes_args(P, D, dl_block, dec_block)
-      sched = [[0, -1, 0]] + ([[1, -1, 0]] if kind == 'lzma' else [])
-      ans = ctx.drv.ask([line('c19.run', *zs, fs_model, sched)])[0]
-      if ans[-1] != 'raises' and not same_listing(ans[-1], final_listing):
-        corr.append(f'after completed calls: impl {final_listing} vs model {ans[-1]}')
+    if not corr and not probs:
+      want = self.completed_finals(ctx, zs, kind, fs_model)
+      if want is not None and finals_of(final_listing) != want:
+        corr.append(f'after completed calls: final names {finals_of(final_listing)} vs model {want}')
     key = probs[0][0] if probs else None
     tags = ('schedule', f'kind={kind}', f'steps={len(case["sched"])}', self._size_tag(kind, size),
             f'init_dl={bool(init.get("dl"))}', f'stale_tmp={init.get("dlPart") is not None or init.get("decPart") is not None}')
     return Outcome(oracle_fail='; '.join(t for _, t in probs[:3]) or None, corr_fail='; '.join(corr[:3]) or None,
                    key=key, nontrivial=interrupted_late, tags=tags,
-                   detail={'trace': trace, 'final_listing': final_listing})
-
+                   detail={'trace': trace, 'finals_at_the_end': finals_of(final_listing)})
 
 PROPERTY = C19
